@@ -168,10 +168,12 @@ def check_live(c):
             if n > 1:
                 raise Violation("two-operations-in-flight", ("live",), "order is in %d queued packages" % n, c)
             st_ = o.status.name if o.status else None
-            if id(o) in seen_complete and st_ in ("PENDING", "EXECUTABLE", "CANCELLING", "UPDATING", "REPLACING"):
-                raise Violation("completed-order-live-again", (seen_complete[id(o)], st_, "live"), "order observed complete is now %s" % st_, c)
+            # (keyed by id but holding the object: ids are recycled once a restarted instance drops its orders)
+            if id(o) in seen_complete and seen_complete[id(o)][0] is o and st_ in ("PENDING", "EXECUTABLE", "CANCELLING", "UPDATING", "REPLACING"):
+                raise Violation("completed-order-live-again", (seen_complete[id(o)][1], st_, "live"), "order observed complete is now %s" % st_, c)
             if o.complete and "PENDING" in [x.name for x in o.status_log]:
-                seen_complete.setdefault(id(o), st_)
+                if id(o) not in seen_complete or seen_complete[id(o)][0] is not o:
+                    seen_complete[id(o)] = (o, st_)
                 b = d.exchange.bets.get(str(o.bet_id)) if o.bet_id else None
                 if b is not None and b.status == "EXECUTABLE":
                     cr = o.responses.cancel_responses
